@@ -588,7 +588,7 @@ func (r *runner) collect(nsh int) (sum Summary, distinct int) {
 	sum.Obs = map[string]int64{}
 	sum.Maxes = map[string]float64{}
 	cells := map[string]bool{}
-	hashes := map[uint64]struct{}{}
+	var hashes []uint64
 	begun := 0
 	for k := 0; k < nsh; k++ {
 		logp := filepath.Join(r.o.WorkDir, fmt.Sprintf("shard.%d.log", k))
@@ -639,7 +639,7 @@ func (r *runner) collect(nsh int) (sum Summary, distinct int) {
 		f.Close()
 		if hb, err := os.ReadFile(logp + ".hashes"); err == nil {
 			for i := 0; i+8 <= len(hb); i += 8 {
-				hashes[binary.LittleEndian.Uint64(hb[i:])] = struct{}{}
+				hashes = append(hashes, binary.LittleEndian.Uint64(hb[i:]))
 			}
 		}
 	}
@@ -648,7 +648,14 @@ func (r *runner) collect(nsh int) (sum Summary, distinct int) {
 	}
 	sort.Strings(sum.Cells)
 	sum.Cases = begun
-	return sum, len(hashes)
+	sort.Slice(hashes, func(i, j int) bool { return hashes[i] < hashes[j] })
+	distinct = 0
+	for i, h := range hashes {
+		if i == 0 || h != hashes[i-1] {
+			distinct++
+		}
+	}
+	return sum, distinct
 }
 
 func loadFindings(dir string) []Finding {
